@@ -5,7 +5,7 @@ pvMoveBufferToHead / pvDeleteBuffer on fabricated lists and on every merge obser
 oracle: the property predicate evaluated inside harness.cpp on the real MemPool with a placement-policy manager."""
 import os, re
 
-GEN = ['gen_uintmath.json', 'gen_poolconst.json', 'gen_mempool.json', 'gen_pool32.json', 'gen_pooldata.json']
+GEN = ['gen_uintmath.json', 'gen_poolconst.json', 'gen_mempool.json', 'gen_pool32.json', 'gen_pooldata.json', 'gen_poolblk.json', 'gen_poolmerge.json']
 BASE = 0x200000000000
 BCS = [1, 2, 3, 31, 32, 127]
 CFS = [0, 1, 16]
@@ -40,7 +40,7 @@ def tv_cases(ctx, scale):
         for ma in (16, 1, 2, 8, 64, 1024, 2 ** 63, 2 ** 64 - 1, 3, 24, r.range(1, 2 ** r.range(1, 64))):
             cs.append('gba %d %d' % (bs, ma))
         if bs < 2 ** 40: cs.append('gbp %d 16 32' % bs)
-    for (m, dm) in ((1, 2), (2, 1), (0, 0), (5, 5), (0, 7)):      # MemPool::Data::Swap (generated): manager identities and counters change places
+    for (m, dm) in ((100, 200), (200, 100), (0, 0), (501, 502), (502, 501), (7, 9), (300, 399)):   # m = 100 * id + tag; IsEqual sees the id only (equal managers, different objects: fc18ee9)      # MemPool::Data::Swap (generated): manager identities and counters change places
         for (a, da) in ((0, 0), (3, 0), (0, 9), (r.below(1000), r.below(1000))):
             cs.append('dswap %d %d %d %d' % (m, a, dm, da))
     for bc in (0, 1, 2, 126, 127, 128, 129, 2 ** 64 - 1):
@@ -324,6 +324,10 @@ def oracle_lines(ctx, cases, lines):
         elif w[0] in ('fabmg', 'fabmv', 'fabdel'):
             if 'BROKEN' in out or 'ORPHANED' in out or 'LEAK' in out or 'FAIL' in out or 'CRASH' in out or 'missing' in out:
                 bad.append((c, out, 'real list surgery leaves a malformed buffer list: ' + out[:200]))
+        elif w[0] == 'dswap':
+            if out.split() != [w[3], w[4], w[1], w[2]]:
+                bad.append((c, out, 'Data::Swap did not exchange the memory managers (100*id + tag) and counters: got %s, expected %s %s %s %s' % (out, w[3], w[4], w[1], w[2])))
+            else: ctx.nontrivial.add(c)
         elif w[0] == 'gba':
             try:
                 bs, ma = int(w[1]), int(w[2]); a = int(out)
@@ -523,7 +527,7 @@ def run(ctx):
         hist = hist + hist_cases(ctx, 6, 4000)
         tv = tv + layout_cases(ctx, 4)
     u32 = u32_cases(ctx, scale)
-    cases = [c for c in tv if c.startswith('nb') or c.startswith('al1') or c.startswith('ctor') or c.startswith('gba ')] + fab + hist + u32
+    cases = [c for c in tv if c.startswith('nb') or c.startswith('al1') or c.startswith('ctor') or c.startswith('gba ') or c.startswith('dswap ')] + fab + hist + u32
     rc, lines, err = run_harness(ctx, harness, cases, 'oracle')
     ctx.evaluations += len(cases)
     bad = oracle_lines(ctx, cases, lines)
